@@ -1,1 +1,335 @@
-//! (to be filled)
+//! C24 — guest allocation entry points honour size, alignment and contents.
+//!
+//! Real code: `rt::cabi_realloc` (hook: compiled natively under the guard),
+//! `rt::Cleanup::{new, forget, Drop}`, and the `cabi_dealloc` runtime item the
+//! Rust backend emits (text extracted from crates/rust/src/lib.rs at run time,
+//! see gen_cabi_dealloc.rs).
+//!
+//! Two kinds of harness:
+//!
+//! * `*_model`: nothing stubbed; the oracle is Kani/CBMC's allocator model
+//!   (contents of `realloc`, double free, free of a non-heap pointer,
+//!   `Layout` preconditions, and `--memory-leak-check` for leaks);
+//! * `*_ledger`: `alloc::alloc::{alloc, realloc, dealloc}` are replaced by
+//!   recording shims and the harness asserts that the `Layout` handed to the
+//!   global allocator has exactly the requested size and alignment.  The
+//!   alignment of the *returned address* is not observable in CBMC's
+//!   object/offset pointer model, so it is delegated to the global
+//!   allocator's contract (`GlobalAlloc::alloc` returns a block aligned to
+//!   `layout.align()`); that is an assumption of this check.
+
+use core::alloc::Layout;
+use core::ptr;
+use wit_bindgen::rt::{cabi_realloc, Cleanup};
+
+mod generated {
+    use std::alloc;
+    include!("gen_cabi_dealloc.rs");
+}
+
+const MAXN: usize = 16;
+
+fn any_align() -> usize {
+    let k: u32 = kani::any();
+    kani::assume(k <= 16);
+    1usize << k
+}
+
+fn any_size(max: usize) -> usize {
+    let n: usize = kani::any();
+    kani::assume(n <= max);
+    n
+}
+
+// ---- recording allocator shims --------------------------------------------
+
+struct Rec {
+    n_alloc: u32,
+    a_size: usize,
+    a_align: usize,
+    a_ptr: *mut u8,
+    n_realloc: u32,
+    r_old: *mut u8,
+    r_size: usize,
+    r_align: usize,
+    r_new_size: usize,
+    r_ptr: *mut u8,
+    n_dealloc: u32,
+    d_ptr: *mut u8,
+    d_size: usize,
+    d_align: usize,
+}
+
+static mut R: Rec = Rec {
+    n_alloc: 0,
+    a_size: 0,
+    a_align: 0,
+    a_ptr: ptr::null_mut(),
+    n_realloc: 0,
+    r_old: ptr::null_mut(),
+    r_size: 0,
+    r_align: 0,
+    r_new_size: 0,
+    r_ptr: ptr::null_mut(),
+    n_dealloc: 0,
+    d_ptr: ptr::null_mut(),
+    d_size: 0,
+    d_align: 0,
+};
+
+/// Replacement for `alloc::alloc::alloc`: records the layout and serves the
+/// block from `alloc_zeroed` (which is not stubbed).
+unsafe fn rec_alloc(layout: Layout) -> *mut u8 {
+    R.n_alloc += 1;
+    R.a_size = layout.size();
+    R.a_align = layout.align();
+    assert!(layout.size() > 0, "global allocator called with a zero-sized layout (undefined behaviour of GlobalAlloc::alloc)");
+    let p = std::alloc::alloc_zeroed(layout);
+    R.a_ptr = p;
+    p
+}
+
+/// Replacement for `alloc::alloc::realloc`: records the request and serves a
+/// fresh block holding the old prefix (the old block is leaked: the ledger
+/// harnesses do not look at the heap).
+unsafe fn rec_realloc(old: *mut u8, layout: Layout, new_size: usize) -> *mut u8 {
+    R.n_realloc += 1;
+    R.r_old = old;
+    R.r_size = layout.size();
+    R.r_align = layout.align();
+    R.r_new_size = new_size;
+    assert!(new_size > 0, "GlobalAlloc::realloc with new_size == 0 is undefined behaviour");
+    let p = std::alloc::alloc_zeroed(Layout::from_size_align_unchecked(new_size, layout.align()));
+    R.r_ptr = p;
+    p
+}
+
+/// Replacement for `alloc::alloc::dealloc`: records, does not free.
+unsafe fn rec_dealloc(p: *mut u8, layout: Layout) {
+    R.n_dealloc += 1;
+    R.d_ptr = p;
+    R.d_size = layout.size();
+    R.d_align = layout.align();
+}
+
+// ---- cabi_realloc -----------------------------------------------------------
+
+/// Two consecutive requests, the second consistent with the first result;
+/// contents compared bytewise.  Oracle: Kani's allocator model.
+#[kani::proof]
+#[kani::unwind(18)]
+fn c24_realloc_model() {
+    unsafe {
+        let align = any_align();
+        let n1 = any_size(MAXN);
+        let data: [u8; MAXN] = kani::any();
+
+        // request 1: a fresh allocation (old_ptr is ignored when old_len == 0)
+        let p1 = cabi_realloc(ptr::null_mut(), 0, align, n1);
+        assert!(!p1.is_null(), "cabi_realloc returned null");
+        if n1 == 0 {
+            assert!(p1 as usize == align, "zero-sized allocation must return the alignment itself");
+        }
+        let mut i = 0;
+        while i < n1 {
+            *p1.add(i) = data[i]; // in bounds and writable for n1 bytes
+            i += 1;
+        }
+
+        // request 2: grow, shrink or (for an empty block) allocate
+        let n2 = any_size(MAXN);
+        // canonical-ABI contract: a non-empty block is never resized to zero
+        // (debug_assert in cabi_realloc)
+        kani::assume(n1 == 0 || n2 > 0);
+        let p2 = cabi_realloc(p1, n1, align, n2);
+        assert!(!p2.is_null(), "cabi_realloc returned null");
+        if n2 == 0 {
+            assert!(p2 as usize == align, "zero-sized allocation must return the alignment itself");
+        }
+        let keep = if n1 < n2 { n1 } else { n2 };
+        let mut i = 0;
+        while i < keep {
+            assert!(*p2.add(i) == data[i], "realloc lost old contents");
+            i += 1;
+        }
+        let mut i = 0;
+        while i < n2 {
+            *p2.add(i) = 0x5a; // in bounds and writable for n2 bytes
+            i += 1;
+        }
+        // the block is owned by the caller now: free it the way the canonical
+        // ABI user would (size, align); Kani checks the layout is the live one
+        if n2 > 0 {
+            std::alloc::dealloc(p2, Layout::from_size_align_unchecked(n2, align));
+        }
+
+        kani::cover!(n1 == 0 && n2 == 0, "two zero-sized requests");
+        kani::cover!(n1 == 0 && n2 == MAXN && align == 65536, "allocate 16 bytes at 64 KiB alignment");
+        kani::cover!(n1 == MAXN && n2 == 1, "shrink 16 -> 1");
+        kani::cover!(n1 == 3 && n2 == MAXN && align == 1, "grow 3 -> 16");
+    }
+}
+
+/// Same two requests; `alloc`/`realloc` record what they are asked for.
+#[kani::proof]
+#[kani::unwind(2)]
+#[kani::stub(std::alloc::alloc, rec_alloc)]
+#[kani::stub(std::alloc::realloc, rec_realloc)]
+fn c24_realloc_ledger() {
+    unsafe {
+        let align = any_align();
+        // sizes are not touched bytewise here: the full range of the property
+        let n1 = any_size(1 << 20);
+        let p1 = cabi_realloc(ptr::null_mut(), 0, align, n1);
+        assert!(!p1.is_null());
+        assert!(R.n_realloc == 0);
+        if n1 == 0 {
+            assert!(R.n_alloc == 0, "zero-sized request must not reach the global allocator");
+            assert!(p1 as usize == align);
+        } else {
+            assert!(R.n_alloc == 1);
+            assert!(R.a_size == n1 && R.a_align == align, "alloc Layout differs from the requested size/alignment");
+            assert!(p1 == R.a_ptr, "cabi_realloc does not return the allocator's block");
+        }
+
+        let n2 = any_size(1 << 20);
+        kani::assume(n1 == 0 || n2 > 0);
+        let p2 = cabi_realloc(p1, n1, align, n2);
+        assert!(!p2.is_null());
+        if n1 == 0 {
+            assert!(R.n_realloc == 0);
+            if n2 == 0 {
+                assert!(R.n_alloc == 0 && p2 as usize == align);
+            } else {
+                assert!(R.n_alloc == 1 && R.a_size == n2 && R.a_align == align && p2 == R.a_ptr);
+            }
+        } else {
+            assert!(R.n_alloc == 1 && R.n_realloc == 1);
+            assert!(R.r_old == p1, "realloc called on a different block");
+            assert!(R.r_size == n1 && R.r_align == align, "realloc Layout is not the old block's (size, align)");
+            assert!(R.r_new_size == n2);
+            assert!(p2 == R.r_ptr);
+        }
+        kani::cover!(n1 == 0 && n2 == 0);
+        kani::cover!(n1 == (1 << 20) && n2 == 1 && align == 65536);
+        kani::cover!(n1 == 0 && n2 == (1 << 20) && align == 1);
+    }
+}
+
+// ---- Cleanup -------------------------------------------------------------------
+
+/// `Cleanup::new` / `Drop` / `forget` against the recording allocator.
+#[kani::proof]
+#[kani::unwind(18)]
+#[kani::stub(std::alloc::alloc, rec_alloc)]
+#[kani::stub(std::alloc::dealloc, rec_dealloc)]
+fn c24_cleanup_ledger() {
+    unsafe {
+        let align = any_align();
+        let size = any_size(MAXN);
+        let layout = Layout::from_size_align_unchecked(size, align);
+        let (p, c) = Cleanup::new(layout);
+        assert!(p.is_null() == (size == 0), "Cleanup::new: pointer is null exactly when the size is zero");
+        assert!(c.is_none() == (size == 0), "Cleanup::new: guard present exactly when the size is non-zero");
+        if size == 0 {
+            assert!(R.n_alloc == 0);
+        } else {
+            assert!(R.n_alloc == 1 && R.a_size == size && R.a_align == align && R.a_ptr == p);
+        }
+        let forget: bool = kani::any();
+        match c {
+            Some(c) => {
+                if forget {
+                    c.forget();
+                    assert!(R.n_dealloc == 0, "forget() must not free");
+                } else {
+                    drop(c);
+                    assert!(R.n_dealloc == 1, "dropping the guard frees exactly once");
+                    assert!(R.d_ptr == p && R.d_size == size && R.d_align == align, "freed with a different pointer/layout");
+                }
+            }
+            None => assert!(R.n_dealloc == 0),
+        }
+        kani::cover!(size == 0);
+        kani::cover!(size == MAXN && !forget && align == 65536);
+        kani::cover!(size == 1 && forget);
+    }
+}
+
+/// The same against Kani's heap model: the block is writable for `size`
+/// bytes, freed exactly once by `Drop` (leak check on), and not freed by
+/// `forget` (the harness frees it itself: a double free would be flagged).
+#[kani::proof]
+#[kani::unwind(18)]
+fn c24_cleanup_model() {
+    unsafe {
+        let align = any_align();
+        let size = any_size(MAXN);
+        let layout = Layout::from_size_align_unchecked(size, align);
+        let (p, c) = Cleanup::new(layout);
+        assert!(p.is_null() == (size == 0));
+        assert!(c.is_none() == (size == 0));
+        let mut i = 0;
+        while i < size {
+            *p.add(i) = i as u8;
+            i += 1;
+        }
+        let forget: bool = kani::any();
+        if let Some(c) = c {
+            if forget {
+                c.forget();
+                // still allocated and intact
+                assert!(size == 0 || *p == 0);
+                std::alloc::dealloc(p, layout);
+            } else {
+                drop(c);
+            }
+        }
+        kani::cover!(size == 0);
+        kani::cover!(size == MAXN && !forget);
+        kani::cover!(size == 2 && forget);
+    }
+}
+
+// ---- generated cabi_dealloc ------------------------------------------------------
+
+#[kani::proof]
+#[kani::unwind(2)]
+#[kani::stub(std::alloc::dealloc, rec_dealloc)]
+fn c24_cabi_dealloc_ledger() {
+    unsafe {
+        let align = any_align();
+        let size = any_size(1 << 20);
+        // what the canonical ABI hands to post-return code: a block obtained
+        // from cabi_realloc(0, 0, align, size)
+        let p = cabi_realloc(ptr::null_mut(), 0, align, size);
+        generated::cabi_dealloc(p, size, align);
+        if size == 0 {
+            assert!(R.n_dealloc == 0, "zero-sized block is the dangling `align` pointer and must not be freed");
+        } else {
+            assert!(R.n_dealloc == 1);
+            assert!(R.d_ptr == p && R.d_size == size && R.d_align == align, "cabi_dealloc frees with a different pointer/layout");
+        }
+        kani::cover!(size == 0);
+        kani::cover!(size == (1 << 20) && align == 65536);
+    }
+}
+
+#[kani::proof]
+#[kani::unwind(18)]
+fn c24_cabi_dealloc_model() {
+    unsafe {
+        let align = any_align();
+        let size = any_size(MAXN);
+        let p = cabi_realloc(ptr::null_mut(), 0, align, size);
+        let mut i = 0;
+        while i < size {
+            *p.add(i) = 1;
+            i += 1;
+        }
+        generated::cabi_dealloc(p, size, align);
+        // leak check on: the block is gone; Kani flags an invalid free for size 0
+        kani::cover!(size == 0);
+        kani::cover!(size == MAXN);
+    }
+}
